@@ -166,6 +166,10 @@ impl Freelist {
             page_ids.append(&mut pages);
         }
         page_ids.sort_unstable();
+        // A page can be freed more than once by a single transaction (deleting a nested
+        // bucket and then one of its ancestors walks the nested bucket's pages twice),
+        // but it must only be listed once.
+        page_ids.dedup();
         page_ids
     }
 
